@@ -21,28 +21,28 @@ CHECKS = {
             "exhaustive lattice enumeration of stored histories against a 60-digit decimal reference of the mixture formula",
             "Every history of a finite lattice (T<=3/4 iterations, all unequal batch-size tuples, temperatures in every order, evidence values in "
             "{-1e3..1e3}, log-likelihoods in {-1e6..1e6}, three target temperatures) is built on the real StateManager through its public API and "
-            "compared with a reference written from the formula; permutation invariance over all T! orders and the likelihood-shift law are checked on a fixed stride of them.",
+            "compared with a reference written from the formula; permutation invariance over all T! orders and the likelihood-shift law are checked on a fixed stride of them. Typed histories: one integer-valued history stored through every legal spelling of its entries (int64/int32/float32/read-only/strided/list batches x Python and numpy scalars, 0-d arrays for beta and logZ). Several live objects: three StateManagers of one shape alive together, every ordered query sequence of length 2-3.",
             "Trusted: Python's decimal arithmetic at 60 digits; floating tolerance 64*eps*magnitude. Values outside the finite alphabets are not explored.",
             "DESIGN.md §4 C04"),
     "C05": ("model_checking",
             "explicit enumeration of reweighting transitions: synthetic history lattice x parameters on the real Reweighter, plus every reachable transition of deviation-bounded runs, against a reference MIS model",
             "One real Reweighter.run() transition is executed from every state of a finite lattice of histories x (n_particles, ess_ratio, ESS / volume-variation target) and from "
             "every reachable state of runs whose per-iteration random tape deviates in <=1 (quick) / <=2 (thorough) places from the default, over a covering array of the schedule-relevant options; "
-            "monotonicity, range, the ESS guarantee on every advance and the coherence of recorded beta/ESS/logZ/weights are checked on each transition. Also: a boundary-value family placing the ESS crossing (and beta_prev) inside the last BETA_TOLERANCE cell, every sequence of scripted batch types (depth 4/5) through ONE Reweighter instance, and a kernel-input coherence monitor (temperature/kernel/boundaries passed to the mutation kernel). Integer-typed log-likelihood pools are lattice points. A duo-session phase keeps TWO real samplers alive in one process and explores every interleaving of their iterations and read-only queries (depth 4/5) with the coherence monitor on both.",
+            "monotonicity, range, the ESS guarantee on every advance and the coherence of recorded beta/ESS/logZ/weights are checked on each transition. Also: a boundary-value family placing the ESS crossing (and beta_prev) inside the last BETA_TOLERANCE cell, every sequence of scripted batch types (depth 4/5) through ONE Reweighter instance, and a kernel-input coherence monitor (temperature/kernel/boundaries passed to the mutation kernel). Integer-typed log-likelihood pools are lattice points. A duo-session phase keeps TWO real samplers alive in one process and explores every interleaving of their iterations and read-only queries (depth 4/5) with the coherence monitor on both. Cross-configuration resumes (another particle count, ESS / volume-variation target, kernel, cadence) are monitored transition by transition.",
             "Trusted: the float reference implementation of the mixture formula (cross-checked against the decimal one by C04). Run-level exploration branches over a finite tape alphabet, not over all real-valued draws.",
             "DESIGN.md §4 C05"),
     "C06": ("model_checking",
             "exhaustive enumeration of the random-offset partition (exact rational breakpoints) per (n,w) lattice point; all m^n multinomial answers",
             "Every cell of the exact partition of the uniform offset u0 and the doubles adjacent to every breakpoint are executed on the real "
             "systematic_resample for every (n,w) of a lattice (all compositions of 12 into <=4/5 parts, float-hostile families, in-/out-of-tolerance "
-            "sum perturbations); the multinomial path is decided by enumerating every answer of the scripted np.random.choice and comparing the recorded law. The same partition is also driven through the Resampler.run call site (exact zeros, in-tolerance deficits), and a session phase (one sampler through save/load/iterate sequences) checks that resampled particles always come from the current pool.",
+            "sum perturbations); the multinomial path is decided by enumerating every answer of the scripted np.random.choice and comparing the recorded law. The same partition is also driven through the Resampler.run call site (exact zeros, in-tolerance deficits), and a session phase (one sampler through save/load/iterate sequences) checks that resampled particles always come from the current pool. The call-site partition is repeated at the smallest temperatures an annealing iteration can have (2^-14, 1e-5, 9.9e-5, 5e-324); systematic_resample is run with dyadic weights in every legal container / dtype / layout and every integer type for the size, at and next to every breakpoint, with a call-history oracle; duo sessions (two samplers with different schemes, every interleaving) and cross-configuration resumes are monitored by a call-site law monitor (pool order, floor/ceil copy counts w.r.t. the weights handed in).",
             "Trusted: the rational reference model (mc/refmodels/resample.py), numpy's own choice() implementing the multinomial law it is asked for; "
             "bounded to n*m<=700 (quick)/2500 (thorough).", "DESIGN.md §4 C06"),
     "C07": ("model_checking",
             "complete small-scope enumeration of accept masks / -inf masks / replacement answers on the real kernels and mutation step, plus a record-coherence monitor on every step boundary of deviation-bounded runs over a covering array",
             "All 2^6 accept-mask sequences (3 walkers x 2 steps) of both real kernels for every boundary/prior/blob/cluster-count variant, all -inf masks and replacement-index answers of the prior-sampling "
             "mutation (n<=4), and every step-boundary particle set, committed batch and posterior() return of every run in the deviation-bounded tree are checked row by row against pure fixtures "
-            "(x=T(u), logL=f(x), blob=b(x), u in the cube, whole-record moves, append-only history). A session phase drives one sampler object through every save/load/iterate sequence (depth 5/7 + longer roll-back patterns) with the monitors and an accessor oracle (flattened histories, posterior weights, evidence, trimming) after every operation; the session alphabet includes a complete run() on the object in whatever state it is.",
+            "(x=T(u), logL=f(x), blob=b(x), u in the cube, whole-record moves, append-only history). A session phase drives one sampler object through every save/load/iterate sequence (depth 5/7 + longer roll-back patterns) with the monitors and an accessor oracle (flattened histories, posterior weights, evidence, trimming) after every operation; the session alphabet includes a complete run() on the object in whatever state it is and iterations aborted by a failure of the user's likelihood at its 1st/4th/11th evaluation (every sequence over {S,X1,X4,X11} to depth 3/4; an aborted iteration must leave the committed history unchanged). Fixture axes: scalar blob dtypes, blob shapes (two values, vector, string), numpy-scalar / 0-d / read-only likelihood returns, prior transforms returning a list, writing components by index, or handing back their argument; set-valued boundary collections. Duo sessions (two samplers with different options, every interleaving) and cross-configuration resumes (checkpoint written under options A resumed by a fresh sampler with options B) run under the same monitors.",
             "Trusted: purity/injectivity of the fixtures. Pipeline layer covers option combinations pairwise (quick) / 3-wise (thorough) and a two-symbol tape alphabet per iteration.",
             "DESIGN.md §4 C07"),
     "C08": ("fault_enumeration",
@@ -60,19 +60,19 @@ CHECKS = {
     "C10": ("model_checking",
             "paired exploration: every run of a tape-deviation tree is executed twice (log-likelihood f and f+c) under the same owned tape and the two executions are compared at every step boundary (commuting-diagram oracle)",
             "For every configuration of a covering array, every shift c in {-1e3,-37.25,0.5,64,1e3} (3 of them in quick) and every tape with <=1 per-iteration deviation, the real sampler is run with f and f+c; after each of the five pipeline steps of "
-            "each iteration beta, labels, counters, particle coordinates, normalised weights and ESS must agree (to rounding) and every recorded log-evidence must differ by beta*c; the final evidence by c. A transition-level commuting diagram (one real reweighting step from a state and from its shifted image) covers beta_prev values inside the last tolerance cell; weak and tight-volume-variation targets are in the lattice.",
-            "Trusted: tolerances stated in evidence. A discrete mismatch is only reported if it reproduces on an independent tape (a floating tie does not).", "DESIGN.md §4 C10"),
+            "each iteration beta, labels, counters, particle coordinates, normalised weights and ESS must agree (to rounding) and every recorded log-evidence must differ by beta*c; the final evidence by c. A transition-level commuting diagram (one real reweighting step from a state and from its shifted image) covers beta_prev values inside the last tolerance cell; weak and tight-volume-variation targets and likelihoods returning int64 / float32 scalar blobs are in the lattice.",
+            "Trusted: tolerances stated in evidence (weights/ESS/logZ: 1e-8 + 20 x the largest logL drift observed between the two runs). A discrete mismatch is only reported if it reproduces on an independent tape (a floating tie does not).", "DESIGN.md §4 C10"),
     "C11": ("model_checking",
             "exhaustive enumeration of -inf mask sequences over the warm-up iterations (scripted prior draws and replacement answers) on the real Sampler.sample(), with a step-boundary monitor",
             "All sequences of zero-likelihood masks (m_1..m_W) in ({0,1}^n)^W for n in {2,3,4} and W in {1..4} warm-up iterations (W forced through ess_ratio), plus all replacement-index answers for small n, are executed through the real "
             "iteration loop: no -inf log-likelihood may be stored at any step boundary, each beta=0 batch's recorded logZ must lie within [min,max] of the per-batch log supported fractions seen so far (counted once), and for a constant-on-support "
-            "likelihood the first annealing iteration must jump to beta=1 with its evidence inside the same interval. Includes float32 likelihood / prior-transform variants, redrawn all -inf batches, and annealing iterations with Metropolis uniforms scripted to 0.",
+            "likelihood the first annealing iteration must jump to beta=1 with its evidence inside the same interval. Includes float32 likelihood / prior-transform variants, redrawn all -inf batches, and annealing iterations with Metropolis uniforms scripted to 0. Failure injection: the user's likelihood raises once at its j-th call of iteration t, for every (t<=W+1, j<=2n) x every mask sequence, and the iteration is retried on the same sampler.",
             "Trusted: the interval oracle accepts per-batch, pooled and harmonic-pooled estimators. The statistical half of the property (convergence of the final evidence) is outside this family (see C02).", "DESIGN.md §4 C11"),
     "C12": ("model_checking",
             "terminal-state exploration of deviation-bounded runs over a covering array; exhaustive product of posterior() options x trimming parameters x scripted resampling offsets on every terminal state, against the reference MIS model",
             "Every terminal state reached by the real run() with <=1 tape deviation per configuration (pairwise/3-wise covering array of kernel, resampler, clustering, metric, evaluation, boundary, n_total, ess_ratio, target) "
             "is checked for |1-beta|<1e-4, reference ESS>=n_total and evidence()==reference logZ(1); then all 16 flag combinations of posterior() x 4 trimming settings x scripted offsets are executed and checked for arity, "
-            "equal lengths, normalised/uniform weights and row-by-row alignment of x, logL, blob and log-weight with the stored particles. Plus a termination-threshold phase (n_total just above every posterior ESS the run passes through), resume with a larger n_total, and a session phase for posterior()/evidence() after save/load/iterate sequences.",
+            "equal lengths, normalised/uniform weights and row-by-row alignment of x, logL, blob and log-weight with the stored particles. Plus a termination-threshold phase (n_total just above every posterior ESS the run passes through), resume with a larger n_total, a session phase for posterior()/evidence() after save/load/iterate sequences, duo sessions (two samplers interleaved) and cross-configuration resumes with a larger n_total.",
             "Trusted: float reference MIS model, pure fixtures. The per-configuration run cap is reported in evidence when hit.", "DESIGN.md §4 C12"),
     "C13": ("model_checking",
             "schedule enumeration: every permutation of the evaluation/completion order of a likelihood batch at every pool.map call of a run (bounded number of deviating calls), differential comparison of step-boundary state digests across evaluation modes under one tape",
@@ -83,19 +83,19 @@ CHECKS = {
             "environment-answer enumeration with a scripted clusterer (all predicted-label vectors incl. missing labels) through the real Trainer/Resampler/kernel; real-clusterer pool lattice x systematic offsets; cadence x warm-up x cap x resume-from-every-checkpoint exploration with a kernel-entry monitor",
             "All label vectors {0..K-1}^m a K-cluster model can answer for the training pool (m in 4..6, K in 2..3) x all label vectors for 3 resampled particles are pushed through the real Trainer.run / Resampler.run / kernel entry: every label must index an existing valid mode "
             "and that mode must equal the single-cluster fit of exactly the training points with that label; the real clusterer is run on a lattice of weighted blob pools (trimming removes whole blobs) over the systematic-offset partition; "
-            "real runs over cluster_every in {1,2,3,4,5,7} x warm-up length x kernel x normalize x cap (equal and dying modes) are monitored at every kernel entry and resumed from every checkpoint into a fresh sampler. A session phase drives one clustering sampler through save/load/iterate patterns with the monitor armed; the monitor also demands that every active particle carries the label the training model predicts for it (row-wise), and the cadence lattice includes n_particles in {1,2}.",
+            "real runs over cluster_every in {1,2,3,4,5,7} x warm-up length x kernel x normalize x cap (equal and dying modes) are monitored at every kernel entry and resumed from every checkpoint into a fresh sampler. A session phase drives one clustering sampler through save/load/iterate patterns with the monitor armed; the monitor also demands that every active particle carries the label the training model predicts for it (row-wise), and the cadence lattice includes n_particles in {1,2}. Duo sessions (two clustering samplers with different targets / cadences / caps, every interleaving) and cross-configuration resumes (clustering switched on, other cadence, other particle count) run under the same monitor.",
             "Trusted: C19 (a Student-t location lies in the bounding box of its data) for the pipeline-level 'same cluster' oracle. Pools and targets outside the lattice are not explored.", "DESIGN.md §4 C14"),
     "C15": ("exploration",
             "exhaustive enumeration of a deterministic data lattice x weight lattice x model options on the real mixture / hierarchical models under an owned tape, with invariants and a replication-equivalence differential oracle",
             "Every (dimension, size, layout incl. degenerate and duplicated points, separation, affine placement) x weight pattern (uniform, integer, dominant, geometric, zeros on a subset / a whole blob) x covariance type {full,diag} x components {1,2,3} "
             "is fitted by the real GaussianMixture: weights a probability vector, covariances symmetric PSD, non-negligible components inside the data bounding box, labels in range, finite BIC, integer weights equivalent to replicated points; "
-            "the hierarchical model (normalize on/off, 3 threshold modifiers, both ways core.py sets the cap) must label every training point once in [0,K), respect the cap and the minimum child size, and predict labels / row-stochastic probabilities for training and arbitrary query points.",
+            "the hierarchical model (normalize on/off, 3 threshold modifiers, both ways core.py sets the cap) must label every training point once in [0,K), respect the cap and the minimum child size, and predict labels / row-stochastic probabilities for training and arbitrary query points. Integer options are also given as numpy integers; one clusterer object is refitted on every ordered pair (triple) of data sets of different dimension / size and compared with a fresh object; data and sample weights are presented in every legal container / dtype / layout.",
             "Trusted: scipy quantiles for the data grids. Known findings (un-normalised data with spread ~1e3) are listed in known_findings.json and printed as KNOWN-FINDING.", "DESIGN.md §4 C15"),
     "C16": ("exploration",
             "exhaustive enumeration of a structured-double lattice x all strict/periodic/reflective coordinate assignments against an exact rational fold",
             "Every value of a ~1.3k-point lattice of doubles (signed zeros, subnormals, every binade edge 2^-60..2^70 and up to 2^1023 with ulp neighbours, integers/halves/quarters with ulp neighbours, 2^53 and 2^63 edges, 1e300) "
             "is placed in every coordinate of 1-D (d<=3) and 2-D arrays under every one of the 3^d role assignments; results are compared with the exact rational mod-1 / triangle fold, idempotence, untouched strict coordinates, "
-            "unmodified input and the exact truth table of check_bounds. A kernel-usage phase runs the real kernels over every ordered pair of boundary configurations in one process (3 walkers, expected positions from first principles).",
+            "unmodified input and the exact truth table of check_bounds. A kernel-usage phase runs the real kernels over every ordered pair of boundary configurations in one process (3 walkers, expected positions from first principles). The index collections are given in every legal spelling (tuple, set, frozenset, dict keys, numpy-integer lists, int32/uint8 arrays, reversed / repeated lists) and the point arrays in every dtype / layout that carries a dyadic sub-lattice exactly.",
             "Trusted: Python Fraction arithmetic. Doubles outside the lattice are represented by their binade/neighbourhood class only. The 'symmetric proposal o fold is symmetric' consequence is decided under C03.", "DESIGN.md §4 C16"),
     "C17": ("model_checking",
             "explicit-state exploration of all public-operation sequences up to a depth on the real StateManager next to a deep-copy reference model, with np.shares_memory and caller-side overwrites after every accessor; twin-run differential oracle at sampler level",
@@ -106,18 +106,18 @@ CHECKS = {
     "C18": ("model_checking",
             "exhaustive one-factor-at-a-time enumeration of invalid values over 4 base configurations; covering-array exploration (pairwise / 3-wise) of the constructor option product with complete real runs and delta-minimisation of failures",
             "All listed constraint violations x 4 valid bases must be rejected by the constructor with zero likelihood/prior calls; every row of a strength-2 (quick) / strength-3 (thorough) covering array over 14 constructor options "
-            "(incl. pool in {None,1,2,object}, save_every on an in-memory file system, cluster cadence and caps) must construct, run to completion and satisfy the run post-conditions. Valid rows that write checkpoints are also resumed by a fresh sampler; the valid lattice includes three targets, three particle counts and two tapes; boundary index sequences are given as lists, tuples and empty sequences; every valid row is used again after run() (one more sample(), a further run() with a larger target).",
+            "(incl. pool in {None,1,2,object}, save_every on an in-memory file system, cluster cadence and caps) must construct, run to completion and satisfy the run post-conditions. Valid rows that write checkpoints are also resumed by a fresh sampler; the valid lattice includes three targets, three particle counts and two tapes; boundary index sequences are given as lists, tuples and empty sequences; every valid row is used again after run() (one more sample(), a further run() with a larger target). Option spellings: each numeric / boolean option of three valid bases given as another scalar type with the same value (numpy ints/floats/bools, 0-d arrays, int for float and float for int) must either be rejected by the constructor before any likelihood call or give the same run as the plain spelling.",
             "Trusted: covering-array generator (its tuple coverage is measured and reported). Higher-order interactions than the stated strength are not covered.", "DESIGN.md §4 C18"),
     "C19": ("exploration",
             "exhaustive enumeration of a deterministic data lattice x transformation-group lattice (scalings, translations, all coordinate permutations) with the untransformed fit as reference",
             "Every data set of a deterministic lattice (d in 1..8, n in 4d..2000, Gaussian / t_1,2,5,30 / skewed / contaminated quantile grids, three correlations) is fitted by the real fit_mvstud and checked for a finite "
             "in-box location, symmetric positive-definite scale and nu in (0,inf]; each is refitted under every transformation of the group lattice and compared with the transformed reference fit; large t-grids must recover "
-            "(location, scale, nu); non-finite nu must be replaced by the fallback in ModeStatistics and never reach the kernel.",
+            "(location, scale, nu); non-finite nu must be replaced by the fallback in ModeStatistics and never reach the kernel. Call histories: every sequence (length 2-3) of three data sets in disjoint boxes through fit_mvstud / from_global / from_particles (with empty clusters), via one refilled buffer or fresh arrays; data arrays in every dtype / layout that carries them exactly.",
             "Trusted: scipy quantile functions used to build the grids. Tolerance 1e-4 relative for equivariance; recovery of nu accepted in either nu or 1/nu metric (nearly Gaussian tails are weakly identified).", "DESIGN.md §4 C19"),
     "C20": ("exploration",
             "exhaustive enumeration of all weight vectors over a dynamic-range alphabet (length<=5) and structured long vectors against rational references; affine-map lattice for the volume metric",
             "All 37k weight vectors over {0,1e-300,1e-12,1e-3,1,3,1e8,1e300} of length 1-5 (plus long uniform/geometric/dominant/tempering/tied vectors up to 1e4) are checked for ESS in [1,N], exact value, scale and permutation invariance; "
-            "the trimming contract (upper set, order, alignment via identity samples, ESS fraction, normalisation) is checked for 4 ESS fractions x 3 bin counts; the volume metric is checked for non-negativity, weight-scale and affine invariance on a lattice of maps with condition number up to 1e6. Every trim_weights call made by real runs is checked against the contract (call-site phase); a session phase checks posterior(trim) against the current weights after save/load/iterate sequences.",
+            "the trimming contract (upper set, order, alignment via identity samples, ESS fraction, normalisation) is checked for 4 ESS fractions x 3 bin counts; the volume metric is checked for non-negativity, weight-scale and affine invariance on a lattice of maps with condition number up to 1e6. Every trim_weights call made by real runs is checked against the contract (call-site phase); a session phase checks posterior(trim) against the current weights after save/load/iterate sequences. Weights / samples are also presented in every legal dtype / layout, every call is repeated after a call with other arguments, and arrays returned earlier are held and must not change; the affine maps include uniform rescalings to extreme units (1e-150..1e60).",
             "Trusted: Fraction reference for ESS. Inputs where the metric's own regularisation/clip branches are active are outside the invariance premise and are counted in evidence.", "DESIGN.md §4 C20"),
 }
 
